@@ -31,6 +31,12 @@ def reset(memo="cold"):
                 if s is not None:
                     s.nextTokenWithinRule = None
     random.seed(12345)
+    try:
+        from . import c14_workload
+
+        c14_workload.reset_retained()
+    except Exception:
+        pass
 
 
 def warm_memo():
